@@ -231,8 +231,17 @@ def _run_base(ctx):
     patches = [const_val(c.args[0]) for c in calls_in(so, nested=False) if isinstance(c.func, ast.Attribute) and c.func.attr == 'patch' and
                dotted(c.func.value) == 'di' and c.args]
     appends = [c for c in calls_in(so, nested=False) if isinstance(c.func, ast.Attribute) and c.func.attr == 'append' and dotted(c.func.value) == 'di']
-    ok = len(set(pops)) == 1 and set(patches) == set(pops) and bool(appends)
-    ctx.inst('R11.4', 'nbdime.diffing.notebooks:diff_single_outputs', 'popped %s; di.patch(%s); entries re-appended through the mapping builder' % (sorted(set(pops)), patches), ok,
+    # ... or the operands are built without the key: {k: v for k, v in x.items() if k != '<key>'}
+    n_comp = 0
+    for dc in walk_no_nested(so):
+        if isinstance(dc, ast.DictComp) and len(dc.generators) == 1 and isinstance(dc.key, ast.Name):
+            for cond in dc.generators[0].ifs:
+                if isinstance(cond, ast.Compare) and len(cond.ops) == 1 and isinstance(cond.ops[0], ast.NotEq) and isinstance(cond.left, ast.Name) and \
+                        cond.left.id == dc.key.id and isinstance(const_val(cond.comparators[0]), str):
+                    pops.append(const_val(cond.comparators[0]))
+                    n_comp += 1
+    ok = len(set(pops)) == 1 and set(patches) == set(pops) and bool(appends) and len(pops) >= 2
+    ctx.inst('R11.4', 'nbdime.diffing.notebooks:diff_single_outputs', 'key left out of both operands %s; di.patch(%s); entries re-appended through the mapping builder' % (sorted(set(pops)), patches), ok,
              'the key patched separately was removed from both operands of the other diff, so it cannot be targeted twice' if ok else
              'the separately patched key can also appear in the re-appended entries (duplicate key) or entries bypass the builder', so)
 
@@ -308,3 +317,7 @@ def run(ctx):
     from ..keys import key_truthiness
     key_truthiness(ctx, 'R11.7', ['nbdime.diffing.', 'nbdime.diff_format', 'nbdime.diff_utils', 'nbdime.patching'], 'an entry at index 0 / key "" is dropped or mis-ordered')
     add_or_replace_by_membership(ctx, 'R11.9')
+
+
+from .extra import with_extra  # noqa: E402
+run = with_extra('C11', run)
